@@ -2369,6 +2369,11 @@ class SMPLayer(Layer):
         elif self.state.state == SecurityManagerState.STATE_LESC_DHK_CHECK_SENT:
             logger.info('[smp] Channel is now successfully encrypted')
             self.perform_key_distribution()
+
+        elif self.state.state == SecurityManagerState.STATE_LESC_DHK_CHECK_RECVD:
+            logger.info('[smp] Channel is now successfully encrypted')
+            if self.state.responder.is_key_distribution_complete():
+                self.perform_key_distribution()
         else:
             logger.error('[smp] Received an unexpected notification (LL_START_ENC_RSP)')
 
